@@ -14,12 +14,13 @@ Implicit Types (ow : bool) (q : q1).
 Lemma clear_window_shape k : forall q, head q < qsize q -> k <= qsize q ->
   let q' := clear_window q k in
   st q' = st q /\ qsize q' = qsize q /\ cnt q' = cnt q /\ head q' = head q /\ tail q' = tail q /\
+  inl q' = inl q /\
   forall i, i < qsize q -> getu q' i = if i <? k then dflt else getu q i.
 Proof.
   induction k as [|k IH]; intros q Hh Hk; cbn [clear_window].
   - repeat split; reflexivity.
   - rewrite <- setu_set_raw.
-    destruct (IH (setu q k dflt)) as (H1&H2&H3&H4&H5&H6); autorewrite with qdb; try lia.
+    destruct (IH (setu q k dflt)) as (H1&H2&H3&H4&H5&H7&H6); autorewrite with qdb; try lia.
     autorewrite with qdb in *. repeat split; try assumption.
     intros i Hi. rewrite H6 by lia. rewrite getu_setu by lia. dif; fin.
 Qed.
@@ -27,7 +28,7 @@ Qed.
 Lemma inv_fast_clear ow q : inv ow sq q ->
   (ow = true -> forall i, i < qsize q -> getu q i = dflt) -> inv ow sq (fast_clear q).
 Proof.
-  intros I H. unfold fast_clear. constructor; unfold store_ok, clean, qsize; cbn [st arr cnt head tail].
+  intros I H. unfold fast_clear. constructor; unfold store_ok, clean, inl_ok, qsize; cbn [st arr cnt head tail inl].
   - exact (inv_sq _ _ q I).
   - lia.
   - lia.
@@ -38,41 +39,54 @@ Proof.
     replace (if 0 + i <? length (arr q) then 0 + i else 0 + i - length (arr q)) with i by (dif; lia).
     rewrite nth_arr_getu by (assumption || (unfold qsize; lia)).
     apply (H Ho). apply intern_extern; (assumption || (unfold qsize; lia)).
+  - exact (inv_inl _ _ q I).
 Qed.
 
 Lemma cleared_ok ow q : inv ow sq q -> 0 < qsize q ->
   let X := (if ow then clear_window q (cnt q) else q) in
-  inv ow sq X /\ st X = st q /\ qsize X = qsize q /\
+  inv ow sq X /\ st X = st q /\ qsize X = qsize q /\ inl X = inl q /\
   (ow = true -> forall i, i < qsize X -> getu X i = dflt).
 Proof.
   intros I Hq X. subst X. destruct ow.
   - pose proof (inv_cnt _ _ q I) as Hc. pose proof (inv_head _ _ q I Hq) as Hh.
-    destruct (clear_window_shape (cnt q) q Hh Hc) as (H1&H2&H3&H4&H5&H6).
-    split; [|split; [assumption|split; [assumption|]]].
+    destruct (clear_window_shape (cnt q) q Hh Hc) as (H1&H2&H3&H4&H5&H7&H6).
+    split; [|split; [assumption|split; [assumption|split; [assumption|]]]].
     + apply (inv_same_shape _ _ q); try assumption. intros i Hi. rewrite H6 by lia. dif; fin.
     + intros _ i Hi. rewrite H2 in Hi. rewrite H6 by lia. dif; [reflexivity|].
       apply (inv_clean _ _ q I eq_refl). lia.
   - split; [assumption|]. repeat split. intros Ho. discriminate.
 Qed.
 
+Lemma inv_released ow q : inv ow sq q -> st q <> SSmall -> inv ow sq (released q).
+Proof.
+  intros I Hs. unfold released. constructor; unfold store_ok, clean, inl_ok, qsize; cbn [st arr cnt head tail inl length].
+  - exact (inv_sq _ _ q I).
+  - lia.
+  - lia.
+  - lia.
+  - reflexivity.
+  - intros _ i Hi. lia.
+  - intros _. exact (inv_inl _ _ q I Hs).
+Qed.
+
 Lemma clear_shape ow q r : inv ow sq q ->
   let q' := clear ow q r in
-  inv ow sq q' /\ cnt q' = 0 /\ (r = false -> st q' = st q /\ qsize q' = qsize q).
+  inv ow sq q' /\ cnt q' = 0 /\ inl q' = inl q /\ (r = false -> st q' = st q /\ qsize q' = qsize q).
 Proof.
   intros I q'. subst q'. unfold clear.
   pose proof (inv_store _ _ q I) as S. unfold store_ok in S. pose proof (inv_sq _ _ q I) as Hsq.
   destruct (st q) eqn:Es.
   - destruct r.
-    + split; [apply inv_empty; exact (inv_sq _ _ q I)|split; [reflexivity|discriminate]].
-    + split; [|split; [reflexivity|intros _; split; [exact Es|reflexivity]]].
+    + split; [apply inv_released; [assumption|congruence]|split; [reflexivity|split; [reflexivity|discriminate]]].
+    + split; [|split; [reflexivity|split; [reflexivity|intros _; split; [exact Es|reflexivity]]]].
       apply inv_fast_clear; [assumption|]. intros _ i Hi. lia.
-  - destruct (cleared_ok ow q I ltac:(lia)) as (J1&J2&J3&J4).
-    split; [apply inv_fast_clear; assumption|]. split; [reflexivity|].
+  - destruct (cleared_ok ow q I ltac:(lia)) as (J1&J2&J3&J5&J4).
+    split; [apply inv_fast_clear; assumption|]. split; [reflexivity|]. split; [exact J5|].
     intros _. cbn [fast_clear st]. unfold qsize in *. cbn [arr fast_clear]. split; congruence.
   - destruct r.
-    + split; [apply inv_empty; exact (inv_sq _ _ q I)|split; [reflexivity|discriminate]].
-    + destruct (cleared_ok ow q I ltac:(lia)) as (J1&J2&J3&J4).
-      split; [apply inv_fast_clear; assumption|]. split; [reflexivity|].
+    + split; [apply inv_released; [assumption|congruence]|split; [reflexivity|split; [reflexivity|discriminate]]].
+    + destruct (cleared_ok ow q I ltac:(lia)) as (J1&J2&J3&J5&J4).
+      split; [apply inv_fast_clear; assumption|]. split; [reflexivity|]. split; [exact J5|].
       intros _. cbn [fast_clear st]. unfold qsize in *. cbn [arr fast_clear]. split; congruence.
 Qed.
 
@@ -108,7 +122,7 @@ Proof.
   destruct (Nat.min n (cnt q)) as [|m] eqn:Em.
   - cbn [fst snd]. rewrite firstn_abs_all by lia. split; [assumption|]. repeat split; lia.
   - destruct (S m =? cnt q) eqn:E1; [|destruct ow].
-    + cbn [fst snd]. destruct (clear_shape ow q false I) as (J1&J2&J3).
+    + cbn [fst snd]. destruct (clear_shape ow q false I) as (J1&J2&_&J3).
       destruct (J3 eq_refl) as [J4 J5].
       replace (cnt q - n) with 0 by lia. rewrite abs_cnt0 by assumption.
       split; [assumption|]. repeat split; (assumption || lia).
@@ -126,6 +140,7 @@ Proof.
         -- intros _. rewrite Ht. qunf. difh; fin.
         -- exact (inv_store _ _ q I).
         -- discriminate.
+        -- exact (inv_inl _ _ q I).
       * apply abs_ext; autorewrite with nthdb; cbn [cnt]; [lia|].
         intros i Hi. autorewrite with nthdb in Hi. rewrite nth_firstn', nth_abs by lia.
         dif; fin.
@@ -157,7 +172,7 @@ Proof.
     + split; [assumption|]. repeat split; lia.
     + rewrite (abs_cnt0 q Hz), skipn_nil. split; [assumption|]. repeat split; lia.
   - destruct (S m =? cnt q) eqn:E1; [|destruct ow].
-    + cbn [fst snd]. destruct (clear_shape ow q false I) as (J1&J2&J3).
+    + cbn [fst snd]. destruct (clear_shape ow q false I) as (J1&J2&_&J3).
       destruct (J3 eq_refl) as [J4 J5].
       rewrite skipn_all2 by (rewrite abs_length; lia). rewrite abs_cnt0 by assumption.
       split; [assumption|]. repeat split; (assumption || lia).
@@ -176,6 +191,7 @@ Proof.
         -- intros _. rewrite Ht. qunf. difh; fin.
         -- exact (inv_store _ _ q I).
         -- discriminate.
+        -- exact (inv_inl _ _ q I).
       * apply abs_ext; autorewrite with nthdb; cbn [cnt]; [lia|].
         intros i Hi. autorewrite with nthdb in Hi. rewrite nth_skipn', nth_abs by lia.
         qunf. difh; fin.
